@@ -12,7 +12,6 @@ CONSTANTS
   MaxBig = 1
   AllowClose = TRUE
   MaxAhead = 2
-  FixD1 = TRUE
   FixD3 = TRUE
   FixD4 = TRUE
   FixD5 = TRUE
